@@ -93,6 +93,17 @@ fn nb_cli_account_commands() {
             }
         }
     }
+    // one mnemonic, every account index 0..=40 and 486 (keys with leading zero nibbles / bytes occur among them: 13, 486)
+    for i in (0..=40usize).chain([486]) {
+        let k = key(GANACHE, "", &format!("m/44'/60'/0'/0/{i}"));
+        let idx = i.to_string();
+        let secret = format!("0x{}", hex::encode(k.secret()));
+        assert_eq!(secret.len(), 66);
+        assert_eq!(ok(&["export", "--mnemonic", GANACHE, "--account-index", &idx], &[], None), secret, "export --account-index {i}");
+        assert_eq!(ok(&["public-key", "--mnemonic", GANACHE, "--account-index", &idx], &[], None), format!("0x{}", hex::encode(k.public().encode_uncompressed())), "public-key --account-index {i}");
+        assert_eq!(ok(&["address", "--mnemonic", GANACHE, "--account-index", &idx], &[], None), k.address().to_string(), "address --account-index {i}");
+        cases += 3;
+    }
     // address is EIP-55 (ganache vector) and the two selectors cannot be combined
     assert_eq!(ok(&["address"], &[("MNEMONIC", GANACHE)], None), "0x90F8bf6A479f320ead074411a4B0e7944Ea8c9C1");
     ordinary_error(&["address", "--mnemonic", GANACHE, "--account-index", "1", "--hd-path", "m/0"], &[], None);
@@ -236,6 +247,18 @@ fn nb_cli_malformed_inputs_are_ordinary_errors() {
         cases += 1;
     }
     ordinary_error(&["new", "--language", "klingon"], &[], None);
+    // unreadable input (non-existent file, directory) for every command that reads one
+    for path in ["/nonexistent/verif-input", "/"] {
+        for sub in ["message", "transaction", "typeddata"] {
+            ordinary_error(&["sign", "--mnemonic", GANACHE, sub, path], &[], None);
+            ordinary_error(&["hash", sub, path], &[], None);
+            cases += 2;
+        }
+        ordinary_error(&["hash", "data", path], &[], None);
+        ordinary_error(&["hex", "encode", path], &[], None);
+        ordinary_error(&["hex", "decode", path], &[], None);
+        cases += 3;
+    }
     println!("VERIF-NATIVE-CASES nb_cli_malformed_inputs_are_ordinary_errors {cases}");
 }
 
@@ -271,4 +294,50 @@ fn nb_cli_vanity_search() {
         }
     }
     println!("VERIF-NATIVE-CASES nb_cli_vanity_search {cases}");
+}
+
+/// bound: hex encode / decode through the real binary: 8 byte strings (empty, NUL, all 256 values, trailing newline, 5000
+/// bytes) via stdin and via a file; 8 multi-line / whitespace layouts; 9 malformed inputs (error on a later line, digit
+/// pair completing an odd count, prefix in the middle, repeated prefix): no output at all
+#[test]
+fn nb_cli_hex_commands() {
+    let mut cases = 0u64;
+    let dir = std::env::temp_dir().join(format!("verif-hex-{}", std::process::id()));
+    std::fs::create_dir_all(&dir).unwrap();
+    let inputs: Vec<Vec<u8>> = vec![vec![], vec![0], vec![0, 0, 0], (0..=255u8).collect(), b"abc\n".to_vec(), b"\n".to_vec(), vec![0xff, 0xfe, 0x00, 0x80, b'\n'], (0..5000usize).map(|i| (i * 31 + 7) as u8).collect()];
+    for (n, bytes) in inputs.iter().enumerate() {
+        let want = format!("0x{}", hex::encode(bytes));
+        let o = run(&["hex", "encode", "-"], &[], Some(bytes));
+        assert_eq!((o.code, o.stdout.as_str()), (Some(0), want.as_str()), "hex encode of input {n}");
+        let f = dir.join(format!("in{n}"));
+        std::fs::write(&f, bytes).unwrap();
+        assert_eq!(ok(&["hex", "encode", f.to_str().unwrap()], &[], None), want, "hex encode from a file, input {n}");
+        // decode(encode(b)) == b, byte for byte (raw stdout)
+        let mut c = Command::new(BIN);
+        c.args(["hex", "decode", "-"]).stdin(Stdio::piped()).stdout(Stdio::piped()).stderr(Stdio::piped());
+        let mut p = c.spawn().unwrap();
+        p.stdin.take().unwrap().write_all(format!("{want}\n").as_bytes()).unwrap();
+        let out = p.wait_with_output().unwrap();
+        assert!(out.status.success() && out.stdout == *bytes, "hex decode(encode(input {n}))");
+        cases += 3;
+    }
+    let raw_decode = |text: &str| -> (Option<i32>, Vec<u8>) {
+        let mut c = Command::new(BIN);
+        c.args(["hex", "decode", "-"]).stdin(Stdio::piped()).stdout(Stdio::piped()).stderr(Stdio::piped());
+        let mut p = c.spawn().unwrap();
+        p.stdin.take().unwrap().write_all(text.as_bytes()).unwrap();
+        let out = p.wait_with_output().unwrap();
+        (out.status.code(), out.stdout)
+    };
+    for layout in ["0xdeadbeef", "deadbeef\n", "0xde\nad\nbe\nef\n", "0xdeadb\neef\n", "de ad\tbe\r\nef", "0x\nDEADBEEF", " 0 x d e a d b e e f ", "0xde\u{a0}ad\u{3000}be\u{b}ef"] {
+        assert_eq!(raw_decode(layout), (Some(0), vec![0xde, 0xad, 0xbe, 0xef]), "hex decode layout {layout:?}");
+        cases += 1;
+    }
+    for bad in ["0xdead\nbeZf\n", "dead\nbee\n", "0xdead\n0xbeef\n", "0x0x", "0x0xdead", "dead\n\nbeef0", "0xde,ad", "deadbeefg", "0xdeadbee"] {
+        let (code, out) = raw_decode(bad);
+        assert!(matches!(code, Some(c) if c != 0 && c != 101) && out.is_empty(), "hex decode of malformed {bad:?}: exit {code:?}, {} bytes of output", out.len());
+        cases += 1;
+    }
+    let _ = std::fs::remove_dir_all(&dir);
+    println!("VERIF-NATIVE-CASES nb_cli_hex_commands {cases}");
 }
